@@ -228,12 +228,15 @@ def run(chk, repo):
     split_node_flags(chk, repo, 'C02.i')
     from rules.shared import truthy_numeric
     chk.clauses.append('C02.k (shared R-TRUTHY) no numeric parameter (reading frame, index, offset: 0 is a value) is tested by truthiness instead of `is None`')
-    truthy_numeric(chk, repo, 'C02.k', ['svgraph', 'aa.AminoAcidSeqRecord', 'dna'])
+    truthy_numeric(chk, repo, 'C02.k', ['svgraph', 'aa', 'dna'])
     series_lockstep(chk, repo, 'C02.l')
     from rules.shared import copy_scalar_fields
     chk.clauses.append('C02.m PVGNode.copy() hands every plain field (truncated, npop_collapsed, cpop_collapsed, cleavage, ...) on unchanged: merged nodes built from copies keep the flags that forbid peptides to start / end at a pop-collapsed or truncated terminus')
     copy_scalar_fields(chk, repo, 'C02.m', ['svgraph.PVGNode:PVGNode'], floor=10)
     fusion_end_flags(chk, repo, 'C02.n')
+    from rules.shared import copy_own_containers
+    chk.clauses.append('C02.o (shared with C03.i) PVGNode.copy() gives the copy its own containers (variants, selenocysteines, edge sets): merged nodes built from copies of one node do not see each other\'s appended Sec positions')
+    copy_own_containers(chk, repo, 'C02.o', ['svgraph.PVGNode:PVGNode'], floor=1)
 
 
 def retry_effects(chk, repo, rid):
